@@ -211,6 +211,9 @@ def main(argv=None):
             new.append(v)
     for k, v in seen_known.items():
         print(f"KNOWN-FINDING: property={prop} {k}: {known[k].get('what', v['what'])}")
+    not_witnessed = sorted(set(known) - set(seen_known))
+    for k in not_witnessed:
+        print(f"note: listed known finding not witnessed in this run: property={prop} {k}")
     # one replay file / VIOLATION line per distinct key
     rep_dir = ROOT / "replays"
     emitted = {}
@@ -242,6 +245,7 @@ def main(argv=None):
             wall_s=round(wall, 2),
             violations=len(emitted),
             known_findings_seen=sorted(seen_known),
+            known_findings_not_witnessed=not_witnessed,
             inconclusive=inconclusive,
             repo=str(REPO),
         )
